@@ -163,6 +163,38 @@ theorem exactly_one_resolver_created_received (env : Env) (k : SetKey) (sets : S
       = if res.inOuts.contains (outU32 h) then 1 else 0 :=
   resolvers_in_count env k sets height trigger pl res hb hwf ht h hm hnd
 
+/-- `exactly_one_resolver` (arbitrator level): when a unilateral close of commitment `cs.key` is
+    processed from `StateDefault`, `StateBroadcastCommit` or `StateCommitmentBroadcasted`, the
+    resolvers handed to `InsertUnresolvedContracts` contain exactly one timeout / outgoing-contest
+    resolver for every offered HTLC of the confirmed commitment that has an output and a
+    resolution, and none if the close summary has no resolution for its outpoint. -/
+theorem exactly_one_resolver_arb (env : Env) (a : Arb) (cs : CommitSet) (res : Resolutions)
+    (height : Nat) (choice : AState → Bool) (isLocal : Bool)
+    (hpre : a.state = .default ∨ a.state = .broadcastCommit ∨ a.state = .commitmentBroadcasted)
+    (hb : res.breach = false) (hne : (res.isEmpty && cs.sets.isEmpty) = false)
+    (hwf : WFSet (cs.sets.get cs.key))
+    (h : Htlc) (hm : h ∈ (cs.sets.get cs.key).outgoing) (hnd : h.dust = false) :
+    ((handleClose env a
+        (if isLocal then .localForce cs res height else .remoteForce cs res height) choice).2.resolvers.filter
+        (fun r => (r.1 == .timeout || r.1 == .outContest) && r.2 == h.index)).length
+      = if res.outOuts.contains (outU32 h) then 1 else 0 := by
+  rw [close_resolvers env a cs res height choice isLocal hpre hb hne]
+  exact resolvers_out_count env cs.key cs.sets height _ _ res hb hwf (by cases isLocal <;> simp) h hm hnd
+
+/-- same for received HTLCs. -/
+theorem exactly_one_resolver_arb_received (env : Env) (a : Arb) (cs : CommitSet) (res : Resolutions)
+    (height : Nat) (choice : AState → Bool) (isLocal : Bool)
+    (hpre : a.state = .default ∨ a.state = .broadcastCommit ∨ a.state = .commitmentBroadcasted)
+    (hb : res.breach = false) (hne : (res.isEmpty && cs.sets.isEmpty) = false)
+    (hwf : WFSet (cs.sets.get cs.key))
+    (h : Htlc) (hm : h ∈ (cs.sets.get cs.key).incoming) (hnd : h.dust = false) :
+    ((handleClose env a
+        (if isLocal then .localForce cs res height else .remoteForce cs res height) choice).2.resolvers.filter
+        (fun r => (r.1 == .inContest || r.1 == .success) && r.2 == h.index)).length
+      = if res.inOuts.contains (outU32 h) then 1 else 0 := by
+  rw [close_resolvers env a cs res height choice isLocal hpre hb hne]
+  exact resolvers_in_count env cs.key cs.sets height _ _ res hb hwf (by cases isLocal <;> simp) h hm hnd
+
 /-! ## 4. No fail-back for an offered HTLC that has an output on the confirmed commitment -/
 
 /-- `no_failback_with_output` (classification level): no `FailDust` / `FailDangling` entry carries
@@ -229,6 +261,41 @@ theorem incoming_dust_final_once (env : Env) (a : Arb) (sets : Sets)
       = if i ∈ ((confRemote sets b).incoming.filter (·.dust)).map (·.index) then 1 else 0 :=
   close_default_remote_finals env a sets res height choice b hs hb hne hwfc i
 
+/-- the intended path: user force close, then OUR commitment confirms: an offered HTLC that is
+    dust on our commitment is failed exactly once (at broadcast time, not again at confirmation). -/
+theorem dust_failed_once_user_then_local (env : Env) (a : Arb) (res : Resolutions) (h0 h1 : Nat)
+    (choice : AState → Bool) (hs : a.state = .default) (hf : a.fcErr = .none)
+    (hb : res.breach = false) (h : Htlc) (hm : h ∈ a.active.loc.outgoing) (hd : h.dust = true) :
+    let r1 := handleUser env a h0 choice
+    let r2 := handleClose env r1.1 (.localForce ⟨.loc, a.active⟩ res h1) choice
+    r1.1.state = .commitmentBroadcasted ∧ r1.2.forceClose = 1 ∧
+    (r1.2.fails ++ r2.2.fails).flatten.count h.index = 1 := by
+  intro r1 r2
+  have hu := advance_default_user env a h0 choice hs hf
+  have hr1 : r1 = advance env a h0 .user none choice advanceFuel := by
+    simp [r1, handleUser, hs]
+  have hst : r1.1.state = .commitmentBroadcasted := by rw [hr1, hu.2.2]
+  refine ⟨hst, by rw [hr1]; exact hu.2.1, ?_⟩
+  have hr2 : r2.2 = ccOut env ⟨.loc, a.active⟩ res h1 .localClose (choice .contractClosed) := by
+    simp only [r2, handleClose]
+    exact advance_broadcast_close env _ h1 .localClose _ res choice (Or.inr rfl) (Or.inr hst) rfl hb
+  rw [List.flatten_append, List.count_append, hr2, ccOut_fails_flatten, hr1, hu.1,
+    flatten_failBatch, count_indexSet, count_indexSet]
+  simp only [construct, checkLocal_failDust env h0 .user a.active false _ (by decide),
+    checkLocal_failDangling env h1 .localClose a.active true _ (by decide)]
+  have hin : h.index ∈ (a.active.loc.outgoing.filter (·.dust) ++
+      actionsOf (checkRemoteDangling env h0 a.active false (choice .default)) .failDust).map (·.index) := by
+    rw [List.map_append, List.mem_append]
+    exact Or.inl (List.mem_map.mpr ⟨h, List.mem_filter.mpr ⟨hm, hd⟩, rfl⟩)
+  have hnot : h.index ∉ (actionsOf (checkRemoteDangling env h1 a.active true
+      (choice .contractClosed)) .failDangling).map (·.index) := by
+    intro hc
+    obtain ⟨x, hx, hxi⟩ := List.mem_map.mp hc
+    apply dangling_index_notin_local env h1 a.active true _ _ x hx
+    rw [hxi]
+    exact List.mem_map.mpr ⟨h, hm, rfl⟩
+  rw [if_pos hin, if_neg hnot]
+
 /-! ### Finding F2: the statement is false on the path through StateCommitmentBroadcasted -/
 
 namespace F2
@@ -275,6 +342,44 @@ theorem failed_once_fails_after_broadcast (choice : AState → Bool) :
       insertByIndex, mergeRemote, hasIndex, actionsOf, indexSet, dedupNat, failBatch,
       Out.append, confRemote, otherRemote, mustFailRemote, prepResolvers, Resolutions.isEmpty,
       Sets.isEmpty, HtlcSet.isEmpty, legacyBreach, classifyDangling, resolverFor]
+
+namespace F2b
+
+/-- offered HTLC 3 on all three commitments with an output; offered HTLC 7 only on the peer's
+    pending commitment, dust there, far from expiry. -/
+def h3 : Htlc := { index := 3, incoming := false, amt := 5000000, refundTimeout := 900, outputIndex := 0, hash := 1 }
+def h7 : Htlc := { index := 7, incoming := false, amt := 100000, refundTimeout := 900, outputIndex := -1, hash := 2 }
+
+def sets : Sets := { loc := newHtlcSet [h3], rem := newHtlcSet [h3], pend := newHtlcSet [h3, h7] }
+
+def start : Arb := { state := .default, active := sets }
+
+def afterUser (choice : AState → Bool) : Arb × Out := handleUser F2.env start 100 choice
+
+/-- our OWN commitment confirms, with the resolution for HTLC 3. -/
+def afterClose (choice : AState → Bool) : Arb × Out :=
+  handleClose F2.env (afterUser choice).1 (.localForce ⟨.loc, sets⟩ { outOuts := [0] } 101) choice
+
+end F2b
+
+/-- Second witness (the ordinary path: user force close, then OUR commitment confirms): offered
+    HTLC 7 exists only on the peer's pending commitment and is dust there; it is not near expiry
+    when we broadcast, so the `StateDefault` step does not fail it, and at confirmation it is
+    classified `FailDust`, which `StateContractClosed` ignores: never failed upstream. HTLC 3 gets
+    its resolver. -/
+theorem failed_once_fails_after_broadcast_dangling_dust (choice : AState → Bool) :
+    (F2b.afterUser choice).1.state = .commitmentBroadcasted ∧
+    ((F2b.afterUser choice).2.fails ++ (F2b.afterClose choice).2.fails).flatten.count 7 = 0 ∧
+    (F2b.afterClose choice).2.resolvers = [(.outContest, 3)] ∧
+    (F2b.afterClose choice).1.state = .waitingFullResolution := by
+  refine ⟨?_, ?_, ?_, ?_⟩ <;> cases h1 : choice .default <;> cases h2 : choice .contractClosed <;>
+    simp [h1, h2, F2b.afterUser, F2b.afterClose, F2b.start, F2b.sets, F2.env, F2b.h3, F2b.h7,
+      handleUser, handleClose, advance, advanceFuel, stateStep, checkLocal, checkCommit,
+      checkRemote, checkRemoteDangling, checkRemoteDiff, construct, haveChainActions,
+      shouldGoOnChain, sub32, U32, classifyOut, classifyIn, Htlc.dust, newHtlcSet, mapOfList,
+      insertByIndex, mergeRemote, hasIndex, actionsOf, indexSet, dedupNat, failBatch,
+      Out.append, confRemote, otherRemote, prepResolvers, Resolutions.isEmpty,
+      Sets.isEmpty, HtlcSet.isEmpty, legacyBreach, classifyDangling, resolverFor, outU32]
 
 /-- the same HTLC sets without our broadcast (remote close straight from `StateDefault`): 99 is
     failed exactly once — the witness is not an artefact of the sets. -/
